@@ -9,7 +9,7 @@ PID = "C19"
 RULE = ("seeded forests of roots / rooted nodes / unrooted nodes (Node and Array classes, root and node Metadata) and loose "
         "arrays / dicts / Metadata; one save call with an input of every kind (single node rooted or not, root, array, dict, "
         "Metadata, list or tuple mixing them), every mode and tree option, into a fresh or an existing path, sometimes made to FAIL "
-        "(unsupported metadata value deep in the tree, write mode on an existing file, name collision); observations: full snapshot of "
+        "(unsupported metadata value deep in the tree or on a single unrooted node, write mode on an existing file, append onto a non-EMD HDF5 file, an emdpath that does not exist, name collision); observations: full snapshot of "
         "all caller objects (tree shape, names, roots, metadata identity and content, data tokens, list length and item identity) "
         "before and after, re-addability of every unrooted node, and a second save of the same input to a second fresh path "
         "(file walks compared with the UUID blanked); non-trivial = list input or failing save; distinct by recipe hash")
@@ -137,8 +137,24 @@ def gen_case(r):
                 items.append({"k": "loose", "i": i})
         r.shuffle(items)
         inp = {"k": r.choice(["list", "list", "tuple"]), "items": items}
-    return {"forest": steps, "loose": loose, "input": inp, "mode": r.choice(["w", "w", "o", "a", "ao"]),
+    case = {"forest": steps, "loose": loose, "input": inp, "mode": r.choice(["w", "w", "o", "a", "ao"]),
             "tree": r.choice([True, True, False, None]), "existing": r.random() < 0.3}
+    # directed: a SINGLE unrooted node whose save fails late (after the writer has given it its temporary root): an
+    # unsupported value in its own metadata, an append onto an HDF5 file that is not an EMD file, an emdpath that is not there
+    if unrooted and r.random() < 0.2:
+        x = r.choice(unrooted)
+        case["input"] = {"k": "node", "id": x}
+        how = r.choice(["bad_md", "non_emd_file", "no_such_emdpath"])
+        if how == "bad_md":
+            case["forest"] = steps + [{"do": "md", "node": x, "name": "zbad2", "content": 0, "bad": True}]
+        elif how == "non_emd_file":
+            case["existing"] = "non_emd"
+            case["mode"] = r.choice(["a", "ao"])
+        else:
+            case["existing"] = True
+            case["mode"] = r.choice(["a", "ao"])
+            case["emdpath"] = r.choice(["old/nothing here", "nosuchroot/x", "old/a/b"])
+    return case
 
 
 def cases(tier, seed):
@@ -153,7 +169,11 @@ def run_both(drv, case):
     obs = {}
     try:
         o = Objs(case)
-        if case["existing"]:
+        if case["existing"] == "non_emd":
+            import h5py
+            with h5py.File(os.path.join(d, "A.h5"), "w") as f:
+                f.create_group("stuff").create_dataset("x", data=np.arange(3))
+        elif case["existing"]:
             with common.quiet():
                 emdfile.save(os.path.join(d, "A.h5"), emdfile.Root(name="old"))
         x = o.build_input(case["input"])
@@ -162,7 +182,7 @@ def run_both(drv, case):
         obs["before"] = o.snapshot()
         try:
             with common.quiet():
-                emdfile.save(os.path.join(d, "A.h5"), x, mode=case["mode"], tree=case["tree"])
+                emdfile.save(os.path.join(d, "A.h5"), x, mode=case["mode"], tree=case["tree"], emdpath=case.get("emdpath"))
             obs["save"] = {"ok": True}
         except Exception as e:
             obs["save"] = alpha.exc_kind(e)
